@@ -54,7 +54,6 @@ func (r *rle) flush() {
 }
 func (r *rle) String() string { r.flush(); return r.sb.String() }
 
-
 func ppuWrite(reg int, v uint8) {
 	switch reg {
 	case 0x40:
